@@ -78,6 +78,7 @@ type c06MsgSpec struct {
 type c06Case struct {
 	Kind int          `json:"kind"` // rsEBGP, rsIBGP, rsConfed
 	TAW  bool         `json:"treat_as_withdraw"`
+	AS2  bool         `json:"as2"` // the tested peer has no 4-octet-AS capability: AS_PATH and AGGREGATOR carry 2-octet AS numbers
 	Msgs []c06MsgSpec `json:"msgs"`
 }
 
@@ -100,6 +101,7 @@ const (
 
 func drawC06(t *rapid.T) c06Case {
 	c := c06Case{Kind: rapid.SampledFrom([]int{rsEBGP, rsIBGP, rsConfed}).Draw(t, "kind"), TAW: rapid.IntRange(0, 3).Draw(t, "taw") != 0}
+	c.AS2 = rapid.IntRange(0, 3).Draw(t, "as2") == 0
 	n := rapid.IntRange(2, 9).Draw(t, "nmsg")
 	subset := func(l string, max int) []int {
 		m := rapid.IntRange(0, (1<<c06Pool)-1).Draw(t, l)
@@ -202,6 +204,14 @@ func c06Enc(p netip.Prefix) []byte {
 
 func be32(v uint32) []byte { b := make([]byte, 4); binary.BigEndian.PutUint32(b, v); return b }
 
+// c06ASN encodes an AS number as the session carries it in AS_PATH and AGGREGATOR.
+func c06ASN(as2 bool, v uint32) []byte {
+	if as2 {
+		return be32(v)[2:]
+	}
+	return be32(v)
+}
+
 const c06PeerAS = 65001
 
 func c06PeerASFor(kind int) uint32 {
@@ -215,7 +225,7 @@ func c06PeerASFor(kind int) uint32 {
 }
 
 // c06Base builds the attribute list of the valid base message.
-func c06Base(kind int, m c06MsgSpec) []c06TLV {
+func c06Base(kind int, as2 bool, m c06MsgSpec) []c06TLV {
 	v := m.Variant
 	var out []c06TLV
 	reach := len(m.NLRI) > 0 || len(m.V6) > 0
@@ -231,7 +241,7 @@ func c06Base(kind int, m c06MsgSpec) []c06TLV {
 		seg := func(t byte, as ...uint32) {
 			asp = append(asp, t, byte(len(as)))
 			for _, a := range as {
-				asp = append(asp, be32(a)...)
+				asp = append(asp, c06ASN(as2, a)...)
 			}
 		}
 		switch kind {
@@ -264,7 +274,7 @@ func c06Base(kind int, m c06MsgSpec) []c06TLV {
 			out = append(out, c06TLV{Flags: 0x40, Type: 6})
 		}
 		if m.Opt&oAggregator != 0 {
-			out = append(out, c06TLV{Flags: 0xc0, Type: 7, Val: append(be32(64800+uint32(v)), 10, 7, 7, byte(v))})
+			out = append(out, c06TLV{Flags: 0xc0, Type: 7, Val: append(c06ASN(as2, 64800+uint32(v)), 10, 7, 7, byte(v))})
 		}
 	}
 	if m.Opt&oComm != 0 || !reach {
@@ -338,6 +348,7 @@ type c06Built struct {
 	named4   []netip.Prefix // every IPv4 prefix the message names (NLRI + withdrawn)
 	named6   []netip.Prefix
 	resetSub map[byte]bool // subcodes of the reset-class faults only
+	as2      bool
 }
 
 func c06Find(attrs []c06TLV, typ byte) int {
@@ -350,9 +361,9 @@ func c06Find(attrs []c06TLV, typ byte) int {
 }
 
 // c06Build assembles the message and derives the reference reaction.
-func c06Build(kind int, m c06MsgSpec) *c06Built {
-	b := &c06Built{subs: map[byte]bool{}, resetSub: map[byte]bool{}}
-	attrs := c06Base(kind, m)
+func c06Build(kind int, as2 bool, m c06MsgSpec) *c06Built {
+	b := &c06Built{subs: map[byte]bool{}, resetSub: map[byte]bool{}, as2: as2}
+	attrs := c06Base(kind, as2, m)
 	touched := map[byte]bool{}
 	note := func(class int, f c06Fault, what string, subs ...byte) {
 		if class > b.class {
@@ -431,7 +442,7 @@ func c06Build(kind int, m c06MsgSpec) *c06Built {
 				class = c06Discard
 			case 7:
 				if f.Arg%2 == 0 {
-					a.Val = a.Val[:7]
+					a.Val = a.Val[:len(a.Val)-1]
 				} else {
 					a.Val = append(a.Val, 1)
 				}
@@ -479,7 +490,7 @@ func c06Build(kind int, m c06MsgSpec) *c06Built {
 				v = 0
 			}
 			if len(a.Val) == 0 && v < 5 {
-				a.Val = append([]byte{2, 1}, be32(64650)...)
+				a.Val = append([]byte{2, 1}, c06ASN(as2, 64650)...)
 			}
 			what := ""
 			switch v {
@@ -500,10 +511,10 @@ func c06Build(kind int, m c06MsgSpec) *c06Built {
 				what = "trailing octet"
 			case 5:
 				if kind == rsEBGP {
-					a.Val = append(append([]byte{3, 1}, be32(65010)...), a.Val...)
+					a.Val = append(append([]byte{3, 1}, c06ASN(as2, 65010)...), a.Val...)
 					what = "confederation segment from an external peer"
 				} else {
-					a.Val = append([]byte{2, 1}, be32(64650)...)
+					a.Val = append([]byte{2, 1}, c06ASN(as2, 64650)...)
 					what = "no leading AS_CONFED_SEQUENCE from a confederation member"
 				}
 			}
@@ -698,7 +709,25 @@ func (b *c06Built) installed() []string {
 		if a.bad || a.dup || a.Type == 14 || a.Type == 15 {
 			continue
 		}
-		out = append(out, c06Canon(a.Flags, a.Type, a.Val))
+		val := a.Val
+		if b.as2 {
+			// stored with 4-octet AS numbers (RFC 6793; no AS4_PATH / AS4_AGGREGATOR is sent here)
+			switch a.Type {
+			case 2:
+				val = nil
+				for d := a.Val; len(d) >= 2; {
+					n := int(d[1])
+					val = append(val, d[0], d[1])
+					for i := 0; i < n; i++ {
+						val = append(val, 0, 0, d[2+2*i], d[3+2*i])
+					}
+					d = d[2+2*n:]
+				}
+			case 7:
+				val = append([]byte{0, 0}, a.Val...)
+			}
+		}
+		out = append(out, c06Canon(a.Flags, a.Type, val))
 	}
 	sort.Strings(out)
 	return out
@@ -763,7 +792,9 @@ func (r *c06Run) addPeer(p *rsPeer, taw bool) error {
 }
 
 func (r *c06Run) establish() *verifkit.Failure {
-	ss, _, err := r.n.establish(r.peer.def(), rsOpenSpec(&r.peer))
+	spec := rsOpenSpec(&r.peer)
+	spec.NoAS4 = r.c.AS2
+	ss, _, err := r.n.establish(r.peer.def(), spec)
 	if err != nil {
 		return r.fail("establish", "session of the tested peer: %v", err)
 	}
@@ -813,7 +844,7 @@ func (r *c06Run) compare(what string, got map[rsViewKey][]string, v6NextHopLenie
 }
 
 func (r *c06Run) step(i int, m c06MsgSpec) *verifkit.Failure {
-	b := c06Build(r.c.Kind, m)
+	b := c06Build(r.c.Kind, r.c.AS2, m)
 	r.st.LabelN("fault-not-applicable", b.skipped)
 	want := b.class
 	if want != c06None && !r.c.TAW {
